@@ -39,6 +39,12 @@ class Param:
         self.index = index
 
 
+class Or:
+    """Matches if any alternative matches."""
+    def __init__(self, *alts):
+        self.alts = alts
+
+
 class SelfField:
     """field path of *self, e.g. SelfField('len')"""
     def __init__(self, *path):
@@ -77,6 +83,13 @@ def m(p, t, env=None):
             return core(env[p.name]) == t
         env[p.name] = t
         return True
+    if isinstance(p, Or):
+        for a in p.alts:
+            e = dict(env)
+            if m(a, t, e):
+                env.update(e)
+                return True
+        return False
     t = core(t)
     if isinstance(p, Call):
         if not (isinstance(t, tuple) and t and t[0] == "call"):
